@@ -517,6 +517,22 @@ func (p *parser) listOrArray() *refnbt.Value {
 	return out
 }
 
+var reIntI = regexp.MustCompile(`^([+-]?(?:0|[1-9][0-9]*))[iI]$`)
+
+// intSuffixed: w is an integer of the agreement grammar followed by i or I that fits 32 bits; the number is appended to dst.
+func intSuffixed(w string, dst *[]int32) bool {
+	m := reIntI.FindStringSubmatch(w)
+	if m == nil {
+		return false
+	}
+	n, err := strconv.ParseInt(m[1], 10, 32)
+	if err != nil {
+		return false
+	}
+	*dst = append(*dst, int32(n))
+	return true
+}
+
 func (p *parser) array(kind byte) *refnbt.Value {
 	var out *refnbt.Value
 	var want byte
@@ -545,6 +561,11 @@ func (p *parser) array(kind byte) *refnbt.Value {
 		w := p.bare()
 		v, okLit := Literal(w)
 		switch {
+		case !okLit && kind == 'I' && intSuffixed(w, &out.Ints):
+			// "[I;5I]": readers that know no I suffix refuse the element (a string cannot stand in an int array); the
+			// ones that take it - the library's own writer emits it - read the number. One reading: may be refused,
+			// but if accepted this is the value.
+			p.lenientButTyped("int array element with I suffix: " + trunc(w))
 		case !okLit:
 			p.lenientBecause("array element outside the agreement grammar: " + trunc(w))
 		case v.Tag != want:
